@@ -289,3 +289,115 @@ Definition exit_status (msgs : list pmsg) (blockers : bool) : Z := exit_code (ma
 (* the lines printed for a file whose error_info_map entry is o *)
 Definition printed (srcloc : info -> string) (hide_codes : bool) (show_note_codes : list string) (o : list info) : list pmsg :=
   map (to_pmsg srcloc hide_codes show_note_codes) (final_infos o).
+
+(* ---- ErrorWatchers ------------------------------------------------------------------------------
+   Errors._watchers is a stack; _filter_error asks the watchers from the top, stopping at the first that
+   filters.  add_error_info asks it before anything else, _add_error_info asks it AGAIN for every info it
+   is about to append -- including (in the code shape `reentry = true`) the "not covered" note that
+   add_error_info attaches to an info the watchers have just let through.  The machine below is built on the
+   limiter-free core; `wadm` (the admitted stream infos) is ghost state used to state theorems. *)
+Record watcher := mk_w {
+  wfilter : info -> bool;     (* filter_errors: False / True / a predicate *)
+  wsave : bool;               (* save_filtered_errors *)
+  wfdep : bool;               (* filter_deprecated *)
+  wfreveal : bool;            (* filter_revealed_type (read by MessageBuilder.reveal_type only) *)
+  wnew : bool;                (* _has_new_errors *)
+  wfiltered : list info       (* _filtered (when wsave) *)
+}.
+Definition is_deprecated (i : info) : bool :=
+  match icode i with Some cd => String.eqb (cname cd) "deprecated" | None => false end.
+(* ErrorWatcher.on_error *)
+Definition on_error (w : watcher) (i : info) : watcher * bool :=
+  if is_deprecated i && negb (wfdep w) then (w, false)
+  else let sf := wfilter w i in
+       (mk_w (wfilter w) (wsave w) (wfdep w) (wfreveal w) true
+             (if sf && wsave w then wfiltered w ++ [i] else wfiltered w)%list, sf).
+(* Errors._filter_error; the head of the list is the top of the stack *)
+Fixpoint filter_stack (ws : list watcher) (i : info) : list watcher * bool :=
+  match ws with
+  | [] => ([], false)
+  | w :: t => let '(w', f) := on_error w i in
+              if f then (w' :: t, true)
+              else let '(t', f') := filter_stack t i in (w' :: t', f')
+  end.
+(* the notes note_for_info hands to _add_error_info *)
+Fixpoint add_notes (reentry : bool) (ws : list watcher) (notes : list info) : list watcher * list info :=
+  match notes with
+  | [] => (ws, [])
+  | n :: t => if reentry
+              then let '(ws1, f) := filter_stack ws n in
+                   let '(ws2, kept) := add_notes reentry ws1 t in
+                   (ws2, if f then kept else n :: kept)
+              else let '(ws2, kept) := add_notes reentry ws t in (ws2, n :: kept)
+  end.
+
+Record wst := mk_wst { wcore : st; wstack : list watcher; wadm : list info }.
+
+Definition add_error_info_w (reentry : bool) (c : cfg) (s : wst) (i : info) : wst :=
+  let '(ws1, f1) := filter_stack (wstack s) i in
+  let s0 := wcore s in
+  if f1 then mk_wst s0 ws1 (wadm s)
+  else match classify c i with
+       | Suppressed (Some m) => mk_wst (mk_st (out s0) (used s0 ++ [m]) (once s0)) ws1 (wadm s)
+       | Suppressed None => mk_wst s0 ws1 (wadm s)
+       | IgnoredFile => mk_wst s0 ws1 (wadm s)
+       | Passed =>
+           if ionce i && mem_str (imsg i) (once s0) then mk_wst s0 ws1 (wadm s)
+           else
+             let once1 := if ionce i then (once s0 ++ [imsg i])%list else once s0 in
+             let '(ws2, f2) := filter_stack ws1 i in                    (* _add_error_info(file, info) *)
+             if f2 then mk_wst (mk_st (out s0) (used s0) once1) ws2 (wadm s)
+             else let '(ws3, kept) := add_notes reentry ws2 (cover_note c i) in
+                  mk_wst (mk_st (out s0 ++ i :: kept)%list (used s0) once1) ws3 (wadm s ++ [i])%list
+       end.
+Definition run_w (reentry : bool) (c : cfg) (ws : list watcher) (E : list info) : wst :=
+  fold_left (add_error_info_w reentry c) E (mk_wst init ws []).
+
+(* ---- rendering: ErrorTuples -> text lines (format_messages_default) / MypyErrors (create_errors, --output json) *)
+Record etuple := mk_et {
+  tfile : option string; tline : Z; tcol : Z; tendline : Z; tendcol : Z;
+  terror : bool; tmsg : string; tcode : option string
+}.
+(* the (file, line, column, severity, message, code) of a rendered message *)
+Definition tkey (t : etuple) := (tfile t, tline t, tcol t, terror t, tmsg t, tcode t).
+
+(* text: one message line per tuple; with --pretty an error with a known source line is followed by the source line
+   and a marker line, both indented by DEFAULT_SOURCE_OFFSET = 4 spaces.  `line_of` is the message line
+   (srcloc: severity: message [code]), `src_of` the trimmed source line if available, `marker_of` the ^~~~ text. *)
+Definition indent4 (s : string) : string := "    " ++ s.
+Definition text_lines (line_of : etuple -> string) (src_of : etuple -> option string) (marker_of : etuple -> string)
+           (pretty : bool) (t : etuple) : list string :=
+  line_of t ::
+  (if pretty && terror t && (0 <? tline t)
+   then match src_of t with Some src => [indent4 src; indent4 (marker_of t)] | None => [] end
+   else []).
+Definition format_text line_of src_of marker_of (pretty : bool) (ts : list etuple) : list string :=
+  flat_map (text_lines line_of src_of marker_of pretty) ts.
+Definition is_snippet (s : string) : bool := str_prefix "    " s.
+
+(* json: create_errors folds a note into the `hints` of the latest error at the same (file, line, column) *)
+Record mypy_error := mk_me { mtuple : etuple; mhints : list string }.
+Definition loc : Type := (string * Z * Z)%type.
+Definition loc_eqb (a b : loc) : bool :=
+  let '(f1, l1, c1) := a in let '(f2, l2, c2) := b in String.eqb f1 f2 && (l1 =? l2) && (c1 =? c2).
+Fixpoint lookup_loc (m : list (loc * nat)) (k : loc) : option nat :=
+  match m with [] => None | (k', n) :: t => if loc_eqb k k' then Some n else lookup_loc t k end.
+Fixpoint add_hint (n : nat) (h : string) (acc : list mypy_error) : list mypy_error :=
+  match acc, n with
+  | [], _ => []
+  | e :: t, O => mk_me (mtuple e) (mhints e ++ [h])%list :: t
+  | e :: t, S n' => e :: add_hint n' h t
+  end.
+Definition ce_step (s : list (loc * nat) * list mypy_error) (t : etuple) : list (loc * nat) * list mypy_error :=
+  let '(latest, acc) := s in
+  match tfile t with
+  | None => s
+  | Some f =>
+      let k := (f, tline t, tcol t) in
+      if terror t then ((k, List.length acc) :: latest, (acc ++ [mk_me t []])%list)
+      else match lookup_loc latest k with
+           | None => (latest, (acc ++ [mk_me t []])%list)
+           | Some n => (latest, add_hint n (tmsg t) acc)
+           end
+  end.
+Definition create_errors (ts : list etuple) : list mypy_error := snd (fold_left ce_step ts ([], [])).
